@@ -13,7 +13,7 @@ import (
 // to the bound peer is not relayed, while ChannelData on the still-live binding is; once the binding has
 // expired too, nothing is.
 //
-//verif:props=C01,C07 replay=model bounds="one allocation, one channel binding made by the real AddChannelBind (arbitrary peer, any valid number); the permission timer fires while the binding is live, then optionally the binding's timer; then one Send indication to an arbitrary peer address and one ChannelData on an arbitrary number (payload 0..4 bytes); then an identical re-bind of the live channel"
+//verif:props=C01,C07,C08 replay=model bounds="one allocation, one channel binding made by the real AddChannelBind (arbitrary peer, any valid number); the permission timer fires while the binding is live, then optionally the binding's timer; then one Send indication to an arbitrary peer address and one ChannelData on an arbitrary number (payload 0..4 bytes); then a bind of another number to the same peer and an identical re-bind of the live channel"
 func VerifHarness_C01_send_after_permission_expiry() {
 	s := vNewSrv(false, false)
 	c1 := allocation.VUDPAddr4()
@@ -50,6 +50,13 @@ func VerifHarness_C01_send_after_permission_expiry() {
 	}
 	vAssert(len(s.conn.Writes) == 0, "C01.send_indication_is_never_answered")
 	if !bindingGone {
+		// the peer is still bound to n: another number for it is a conflict, permission or not
+		n2 := proto.ChannelNumber(vU16())
+		vAssume(n2 != n)
+		e2 := a.AddChannelBind(allocation.NewChannelBind(n2, p, &allocation.VLogger{}), s.cbt, s.pt)
+		vAssert(e2 != nil, "C08.peer_bound_to_a_live_number_cannot_take_a_second_number")
+		vAssert(a.GetChannelByNumber(n2) == nil, "C08.rejected_bind_installs_nothing")
+		vAssert(a.GetChannelByNumber(n) != nil, "C08.rejected_bind_leaves_the_existing_binding")
 		// the client re-binds the (still live) channel: that refreshes the binding AND gives the peer a full
 		// permission again, although the old one had expired
 		resets := vTimerResets(cb.VTimer())
